@@ -201,11 +201,19 @@ fn main() {
                     std::process::exit(code);
                 }),
             );
+            if let Ok(path) = std::env::var("VX_DUMP_OUTCOMES") {
+                let f = std::fs::File::create(&path).expect("create dump file");
+                let _ = etree::DUMP.set(std::sync::Mutex::new(std::io::BufWriter::new(f)));
+            }
             if !checks::dispatch(&cx) {
                 eprintln!("unknown property {}", prop);
                 std::process::exit(2);
             }
             // every violation is re-executed once outside the explorer before it is reported
+            if let Some(w) = etree::DUMP.get() {
+                use std::io::Write;
+                let _ = w.lock().unwrap().flush();
+            }
             std::process::exit(cx.finish());
         }
         _ => usage(),
